@@ -308,13 +308,22 @@ impl Walrus {
             debug_print!("[recovery] file {}", file_path);
 
             let mut block_offset: u64 = 0;
+            // Units that look unused so far. A block that was handed out but never
+            // written (its first entry needed a bigger block, or its append failed)
+            // is followed by live blocks, so an empty unit must not end the scan. It
+            // still owns a block id (ids follow allocation order); empty units at the
+            // end of the file were never handed out and are not counted.
+            let mut pending_empty_units: usize = 0;
             while block_offset + DEFAULT_BLOCK_SIZE <= MAX_FILE_SIZE {
-                // heuristic: if first bytes are zero, assume no more blocks
                 let mut probe = [0u8; 8];
                 mmap.read(block_offset as usize, &mut probe);
                 if probe.iter().all(|&b| b == 0) {
-                    break;
+                    pending_empty_units += 1;
+                    block_offset += DEFAULT_BLOCK_SIZE;
+                    continue;
                 }
+                next_block_id += pending_empty_units;
+                pending_empty_units = 0;
 
                 let mut used: u64 = 0;
                 let mut entries_in_block: u64 = 0;
